@@ -1,4 +1,5 @@
 // ---- shims for U-ROWS (C06) ----
+use std::hash::Hash;
 #[verifier::external_body] pub struct TypeVar { _p: u32 }
 #[verifier::external_body] pub struct Prim { _p: u64 }
 #[verifier::external_body] pub struct Constructor { _p: u64 }
@@ -17,7 +18,7 @@ pub fn string_eq_str(a: &String, b: &str) -> (r: bool) ensures r == (a@ == b@) {
 impl VClone for String { #[verifier::external_body] fn vclone(&self) -> (r: Self) { unimplemented!() } }
 impl VClone for Ty { #[verifier::external_body] fn vclone(&self) -> (r: Self) { unimplemented!() } }
 #[verifier::external_body]
-pub fn vec_take<T>(v: &mut Vec<T>) -> (r: Vec<T>) ensures r@ == old(v)@, final(v)@ == Seq::<T>::empty() { unimplemented!() }   // rule vec_retain
+pub fn vec_take<T>(v: &mut Vec<T>) -> (r: Vec<T>) ensures r@ == old(v)@, final(v)@ == Seq::<T>::empty() { unimplemented!() }   // rules vec_retain, mem_take (std::mem::take on a Vec leaves Vec::default(), the empty vector)
 impl Expr { #[verifier::external_body] pub fn get_ty(&self) -> (r: Ty) { unimplemented!() } }
 impl Pat { #[verifier::external_body] pub fn get_ty(&self) -> (r: Ty) { unimplemented!() } }
 
@@ -80,6 +81,7 @@ pub uninterp spec fn ebool_spec(b: bool) -> core::Expr;
 #[verifier::external_body] pub fn core_ebool(value: bool) -> (r: core::Expr) ensures r == ebool_spec(value) { unimplemented!() }
 #[verifier::external_body] pub fn first_row_ty(rows: &Vec<Row>) -> (r: Ty) { unimplemented!() }    // rows.first().map(|r| r.get_ty()).unwrap_or(Ty::TUnit)
 impl VClone for Row { #[verifier::external_body] fn vclone(&self) -> (r: Self) { unimplemented!() } }
+impl VClone for Vec<Row> { #[verifier::external_body] fn vclone(&self) -> (r: Self) { unimplemented!() } }
 // the recursive call: the decision tree for a sub-matrix, as an uninterpreted function of the rows
 pub uninterp spec fn rows_core(rows: Seq<Row>, ty: Ty) -> core::Expr;
 #[verifier::external_body]
@@ -154,5 +156,118 @@ pub open spec fn ctor_split(ins: Seq<Row>, n: int, v: Seq<char>, c: int, vars: S
     else {
         ||| (ctor_img(ins[n - 1], v, c, vars, Seq::<Row>::empty()) && ctor_split(ins, n - 1, v, c, vars, outs))
         ||| (outs.len() >= 1 && ctor_img(ins[n - 1], v, c, vars, seq![outs.last()]) && ctor_split(ins, n - 1, v, c, vars, outs.drop_last()))
+    }
+}
+
+// ---- compile_string_case / compile_int_case_impl: splitting the rows on a literal-typed scrutinee (literal arms, wildcard rows, default) ----
+// The spec is generic in the literal key K and the function kf that reads a pattern literal's key (strings: Prim::str_of; integers:
+// the `extract` closure handed to compile_int_case_impl, see ext_of).
+impl Prim {
+    pub uninterp spec fn str_of(&self) -> Option<Seq<char>>;
+    #[verifier::external_body] pub fn as_str(&self) -> (r: Option<&str>) ensures r matches Some(s) ==> self.str_of() == Some(s@), r is None ==> self.str_of() is None { unimplemented!() }
+}
+pub open spec fn str_kf() -> spec_fn(Prim) -> Option<Seq<char>> { |p: Prim| p.str_of() }
+// the function computed by an `extract` closure (meaningful when the closure is deterministic, which the fragment requires)
+pub open spec fn ext_of<T, F: Fn(&Prim) -> Option<T>>(f: F) -> spec_fn(Prim) -> Option<T> { |p: Prim| choose|o: Option<T>| f.ensures((&p,), o) }
+pub open spec fn ext_ok<T, F: Fn(&Prim) -> Option<T>>(f: F) -> bool {
+    &&& forall|p: &Prim| #[trigger] f.requires((p,))
+    &&& forall|p: &Prim, o1: Option<T>, o2: Option<T>| f.ensures((p,), o1) && f.ensures((p,), o2) ==> o1 == o2
+}
+// IndexMap<String, Vec<Row>> / IndexMap<T, Vec<Row>>: the sub-matrix per literal, in order of first appearance
+#[verifier::external_body] pub struct ValMap { _p: u64 }
+impl ValMap {
+    pub uninterp spec fn entries(&self) -> Seq<(Seq<char>, Seq<Row>)>;
+    pub open spec fn has(&self, k: Seq<char>) -> bool { exists|i: int| 0 <= i < self.entries().len() && (#[trigger] self.entries()[i]).0 == k }
+    #[verifier::external_body] pub fn new() -> (r: Self) ensures r.entries().len() == 0 { unimplemented!() }
+    #[verifier::external_body] pub fn contains_key(&self, k: &String) -> (r: bool) ensures r == self.has(k@) { unimplemented!() }
+    // `entry(k).or_insert_with(..)` on an absent key: a new entry at the END
+    #[verifier::external_body]
+    pub fn insert_new(&mut self, k: String, v: Vec<Row>)
+        requires !old(self).has(k@),
+        ensures final(self).entries() == old(self).entries().push((k@, v@)),
+    { unimplemented!() }
+    // `entry(k).or_insert_with(..).push(row)` once the key is present
+    #[verifier::external_body]
+    pub fn push_to(&mut self, k: &String, row: Row)
+        requires old(self).has(k@),
+        ensures final(self).entries().len() == old(self).entries().len(),
+            forall|i: int| 0 <= i < old(self).entries().len() ==> (#[trigger] final(self).entries()[i]).0 == old(self).entries()[i].0
+                && final(self).entries()[i].1 == (if old(self).entries()[i].0 == k@ { old(self).entries()[i].1.push(row) } else { old(self).entries()[i].1 }),
+    { unimplemented!() }
+    // `for rows in m.values_mut() { rows.push(row.clone()) }`
+    #[verifier::external_body]
+    pub fn push_all(&mut self, row: &Row)
+        ensures final(self).entries().len() == old(self).entries().len(),
+            forall|i: int| 0 <= i < old(self).entries().len() ==> (#[trigger] final(self).entries()[i]).0 == old(self).entries()[i].0
+                && final(self).entries()[i].1 == old(self).entries()[i].1.push(*row),
+    { unimplemented!() }
+}
+// the same for a Copy key (integers): the key is its own view; `Eq` on it is assumed to be equality
+#[verifier::external_body] #[verifier::reject_recursive_types(T)] pub struct IntMap<T> { _p: std::marker::PhantomData<T> }
+impl<T: Copy> IntMap<T> {
+    pub uninterp spec fn entries(&self) -> Seq<(T, Seq<Row>)>;
+    pub open spec fn has(&self, k: T) -> bool { exists|i: int| 0 <= i < self.entries().len() && (#[trigger] self.entries()[i]).0 == k }
+    #[verifier::external_body] pub fn new() -> (r: Self) ensures r.entries().len() == 0 { unimplemented!() }
+    #[verifier::external_body] pub fn contains_key(&self, k: &T) -> (r: bool) ensures r == self.has(*k) { unimplemented!() }
+    #[verifier::external_body]
+    pub fn insert_new(&mut self, k: T, v: Vec<Row>)
+        requires !old(self).has(k),
+        ensures final(self).entries() == old(self).entries().push((k, v@)),
+    { unimplemented!() }
+    #[verifier::external_body]
+    pub fn push_to(&mut self, k: &T, row: Row)
+        requires old(self).has(*k),
+        ensures final(self).entries().len() == old(self).entries().len(),
+            forall|i: int| 0 <= i < old(self).entries().len() ==> (#[trigger] final(self).entries()[i]).0 == old(self).entries()[i].0
+                && final(self).entries()[i].1 == (if old(self).entries()[i].0 == *k { old(self).entries()[i].1.push(row) } else { old(self).entries()[i].1 }),
+    { unimplemented!() }
+    #[verifier::external_body]
+    pub fn push_all(&mut self, row: &Row)
+        ensures final(self).entries().len() == old(self).entries().len(),
+            forall|i: int| 0 <= i < old(self).entries().len() ==> (#[trigger] final(self).entries()[i]).0 == old(self).entries()[i].0
+                && final(self).entries()[i].1 == old(self).entries()[i].1.push(*row),
+    { unimplemented!() }
+}
+// the literal a row's test on v compares with (None: wildcard)
+pub open spec fn lit_at<K>(r: Row, k: int, kf: spec_fn(Prim) -> Option<K>) -> Option<K> {
+    match r.columns@[k].pat { Pat::PPrim { value, ty: _ } => kf(value), _ => None }
+}
+pub open spec fn tests_lit<K>(r: Row, v: Seq<char>, kf: spec_fn(Prim) -> Option<K>, s: K) -> bool { exists|k: int| #[trigger] col_of(r, v, k) && lit_at(r, k, kf) == Some(s) }
+// what ONE row contributes to the sub-matrix of literal `key` (None: the default sub-matrix): a row that does not constrain v
+// (no test, or a wildcard test) goes to EVERY sub-matrix incl. the default; a row testing literal s goes to the sub-matrix of s only
+pub open spec fn lit_img<K>(r: Row, v: Seq<char>, kf: spec_fn(Prim) -> Option<K>, key: Option<K>, o: Seq<Row>) -> bool {
+    ||| (no_col(r, v) && o.len() == 1 && o[0].body == r.body && o[0].columns@ == r.columns@)
+    ||| (exists|k: int| #[trigger] col_of(r, v, k) && (r.columns@[k].pat is PWild || (lit_at(r, k, kf) is Some && lit_at(r, k, kf) == key))
+            && o.len() == 1 && o[0].body == r.body && o[0].columns@ == r.columns@.remove(k))
+    ||| (exists|k: int| #[trigger] col_of(r, v, k) && lit_at(r, k, kf) is Some && lit_at(r, k, kf) != key && o.len() == 0)
+}
+pub open spec fn lit_split<K>(ins: Seq<Row>, n: int, v: Seq<char>, kf: spec_fn(Prim) -> Option<K>, key: Option<K>, outs: Seq<Row>) -> bool
+    decreases n,
+{
+    if n <= 0 || n > ins.len() { outs.len() == 0 }
+    else {
+        ||| (lit_img(ins[n - 1], v, kf, key, Seq::<Row>::empty()) && lit_split(ins, n - 1, v, kf, key, outs))
+        ||| (outs.len() >= 1 && lit_img(ins[n - 1], v, kf, key, seq![outs.last()]) && lit_split(ins, n - 1, v, kf, key, outs.drop_last()))
+    }
+}
+// a literal no row has tested so far gets exactly what the default gets: ALL earlier unconstrained rows, in order (they keep priority)
+pub proof fn lemma_split_unseen<K>(ins: Seq<Row>, n: int, v: Seq<char>, kf: spec_fn(Prim) -> Option<K>, s: K, outs: Seq<Row>)
+    requires 0 <= n <= ins.len(), lit_split(ins, n, v, kf, None, outs), forall|j: int| 0 <= j < n ==> !tests_lit(#[trigger] ins[j], v, kf, s),
+    ensures lit_split(ins, n, v, kf, Some(s), outs),
+    decreases n,
+{
+    if n > 0 {
+        let r = ins[n - 1];
+        assert(!tests_lit(r, v, kf, s));
+        if lit_img(r, v, kf, None, Seq::<Row>::empty()) && lit_split(ins, n - 1, v, kf, None, outs) {
+            lemma_split_unseen(ins, n - 1, v, kf, s, outs);
+            let k = choose|k: int| #[trigger] col_of(r, v, k) && lit_at(r, k, kf) is Some && lit_at(r, k, kf) != None::<K>;
+            assert(col_of(r, v, k));
+            assert(lit_at(r, k, kf) != Some(s)) by { if lit_at(r, k, kf) == Some(s) { assert(tests_lit(r, v, kf, s)); } }
+            assert(lit_img(r, v, kf, Some(s), Seq::<Row>::empty()));
+        } else {
+            lemma_split_unseen(ins, n - 1, v, kf, s, outs.drop_last());
+            assert(lit_img(r, v, kf, Some(s), seq![outs.last()]));
+        }
     }
 }
